@@ -200,7 +200,7 @@ def run_family(ctx, prop, fns, gens, mc_cfgs, extra_mc=()):
     jobs += unlucky_jobs(ctx, prop, jobs, 60 if ctx.quick else 400)
     nb = len(jobs)
     jobs += random_jobs(ctx, prop, fns, 270 if ctx.quick else 4500)
-    recs = pool.run_jobs("harness.props.c01", jobs, limit=10.0)
+    recs = pool.run_jobs("harness.props.c01", jobs, limit=10.0, reuse=True, abort=True)
     verdicts = ctx.validate("Trace_Rewire.tla", "Trace_Rewire.cfg", recs, chunk=1500)
     ctx.judge(jobs, recs, verdicts)
     scripted = [r for r in recs[:nb] if not r.get("timeout")]
